@@ -291,10 +291,8 @@ func runInter(c InterCase) ev.Verdict {
 
 	if c.NoAnswer && c.Events[c.EarlyAfter].Response != "" {
 		// the expected response never came and nothing was configured to end the dialogue early
-		if err == nil {
-			return ev.Fail("the device went back to its prompt instead of showing what event %d expects (%q), no completion pattern was given, yet the send reported success (device lines %q)", c.EarlyAfter, c.Events[c.EarlyAfter].Response, dev.lines)
-		}
-
+		// (how the send ends -- an error, or a result that stops there -- is not fixed by the
+		// statement; that nothing more is typed is)
 		if len(dev.lines) != c.EarlyAfter+1 || len(dev.cur) != 0 {
 			return ev.Fail("event %d's expected response never came, but the device received %q (and %q without a return): inputs of later events were typed", c.EarlyAfter, dev.lines, dev.cur)
 		}
